@@ -80,6 +80,11 @@ type Options struct {
 	// parties / thread roles as different deterministic baseline schedules.
 	// Threads started by the code under test inherit "<parent name>/<n>".
 	Priority func(name string) int
+	// Affinity, if non-nil, refines that order: among the threads that could run instead of the
+	// running one, those for which Affinity(running, candidate) holds come first (stable, after
+	// Priority). With threads grouped by session it makes "switch to the other session and let it run
+	// until it cannot continue" cost one deviation instead of one per blocking operation.
+	Affinity func(running, candidate string) bool
 	// SleepMode switches on sleep sets (partial-order reduction for UNBOUNDED exploration: at least one
 	// interleaving of every Mazurkiewicz trace is executed). Sleep is the sleep set to install when the last
 	// choice of the replayed prefix has been taken. Two operations are dependent iff they are on the same
@@ -355,6 +360,12 @@ func (e *Exec) schedule(self *Thread) {
 		rest := en[first:]
 		sort.SliceStable(rest, func(i, j int) bool {
 			return e.opts.Priority(rest[i].Name) > e.opts.Priority(rest[j].Name)
+		})
+	}
+	if e.opts.Affinity != nil && len(en)-first > 1 {
+		rest := en[first:]
+		sort.SliceStable(rest, func(i, j int) bool {
+			return e.opts.Affinity(self.Name, rest[i].Name) && !e.opts.Affinity(self.Name, rest[j].Name)
 		})
 	}
 	if e.opts.HashStates {
